@@ -124,8 +124,12 @@ func (v *FnVC) callCommon(c *ssa.CallCommon, val ssa.Value, pos token.Pos, how s
 			}
 			return results
 		}
-		// sound default: havoc every heap
+		// sound default: havoc every heap; a callee inside the repository may also run contracted
+		// code (locks, publication, writers), so the ghost state is unknown afterwards as well
 		v.havocAllHeaps()
+		if key == "" || strings.HasPrefix(key, "github.com/tigerwill90/fox") {
+			v.havocGhosts()
+		}
 		mkResults()
 		for _, r := range results {
 			v.assume(v.rangeOf(r.S, r.T))
@@ -381,6 +385,14 @@ func (v *FnVC) noteUncontracted(key, short string) {
 	v.notes = append(v.notes, n)
 }
 
+func (v *FnVC) havocGhosts() {
+	for _, k := range sortedKeys(v.w.heapSorts) {
+		if v.w.ghostKeys[k] && k != "ghost|snapRef" {
+			v.havoc(k)
+		}
+	}
+}
+
 func (v *FnVC) havocAllHeaps() {
 	for _, k := range sortedKeys(v.w.heapSorts) {
 		if k == "nextref" {
@@ -417,20 +429,24 @@ func (v *FnVC) applyModifies(fc *FuncContract, cenv *Env, pre State) {
 			}
 		}
 	}
-	// every call may allocate
+	// every call may allocate, unless the callee's contract says noalloc
+	if fc.NoAlloc && !contains(fc.Modifies, "heap") {
+		return
+	}
 	n := v.havoc("nextref")
 	v.assume(fmt.Sprintf("(>= %s %s)", n, oldNext))
 }
 
 // havocItem: one item of a modifies clause.
-//   heap            everything
-//   alloc           may allocate (nextref grows; nothing existing changes)
-//   T.f             field f of every T object
-//   x.f             field f of the object x (x a parameter expression)
-//   elems(s)        the backing array of slice s
-//   E[T]            every backing array with element type T
-//   *p              the cell p points to
-//   ghost name      a ghost variable
+//
+//	heap            everything
+//	alloc           may allocate (nextref grows; nothing existing changes)
+//	T.f             field f of every T object
+//	x.f             field f of the object x (x a parameter expression)
+//	elems(s)        the backing array of slice s
+//	E[T]            every backing array with element type T
+//	*p              the cell p points to
+//	ghost name      a ghost variable
 func (v *FnVC) havocItem(m string, cenv *Env, pre State, oldNext string) {
 	switch {
 	case m == "heap":
